@@ -16,6 +16,8 @@ import (
 //	fgate   direct mode, one sender; faults imposed at exact points through the gate: peer close / reset / listener
 //	        down while the sender sits between Build and BufWrite or between BufWrite and Flush; listener down before
 //	        the first dial; k refused dials before the listener returns
+//	wdial   direct mode with the client's background worker running (as GetOneWayTcpClient starts it): the worker is
+//	        parked inside Connect, between finding no connection and dialling, while a sender makes its first send
 //	direct  1..16 concurrent senders, healthy collector, mixed sizes (some larger than the 2 MiB writer buffer)
 //	fault   1..3 concurrent senders, the collector goes away before / in the header / in the middle / one byte
 //	        before the end of the n-th frame of a connection (close or reset), optional listener outage between phases
@@ -87,6 +89,7 @@ func Run(c *core.Ctx) error {
 	// the gate schedules hold the process-wide send lock while parked: one at a time, nothing else running
 	run(tg, 1, mk("gate", c.Pick(8, 40), genGate))
 	run(tg, 1, mk("fgate", c.Pick(14, 84), genFgate))
+	run(tg, 1, mk("wdial", c.Pick(4, 12), genWdial))
 
 	var js []job
 	js = append(js, mk("wout", c.Pick(1, 6), genWout)...) // slow (the client sleeps 5 s after a refused dial): first
@@ -290,6 +293,59 @@ func genGate(r *rand.Rand, gen string, cas int) *scenario {
 	g.open()
 	<-done
 	wg.Wait()
+	return sc
+}
+
+// ---------------------------------------------------------------- wdial: the background worker dials in direct mode
+
+// grace is how long a goroutine is given to reach a point it can only reach if nothing stops it (a blocked Lock
+// looks the same as a slow machine): running out of it loses detection, never raises an alarm.
+const grace = 300 * time.Millisecond
+
+func genWdial(r *rand.Rand, gen string, cas int) *scenario {
+	sc, err := newScenario(gen, cas, r, scConf{mode: "direct", worker: true, arm: "dial:1"})
+	if err != nil {
+		return nil
+	}
+	sc.nsend = 1
+	size := smallSize
+	if cas%4 == 3 {
+		size = mediumSize
+	}
+	where := []string{"sent", "sent", "built"}[cas%3]
+	sc.cutDesc = append(sc.cutDesc, "worker-in-dial/sender-at-"+where)
+	sc.mu.Lock()
+	wd := sc.gates["dial:1"]
+	sc.mu.Unlock()
+	// the worker has found no connection and sits in front of its dial (with the send lock, if it takes it)
+	select {
+	case <-wd.parked:
+	case <-time.After(waitMax):
+		sc.note("the worker never went to dial")
+		wd.open()
+		return sc
+	}
+	wc := sc.addWatch("wconnect")
+	x := sc.more(r, 0, 1, size)[0]
+	g := sc.addGate(fmt.Sprintf("%s:%d", where, x.id))
+	done := make(chan struct{})
+	go func() { defer close(done); sc.send(x) }()
+	// the first send of the client: it dials, and parks with its frame built / in the writer -- if nothing stops it
+	select {
+	case <-g.parked:
+	case <-time.After(grace):
+	}
+	wd.open() // the worker dials now
+	select {
+	case <-wc:
+	case <-time.After(waitMax):
+		sc.note("the worker never finished its dial")
+	}
+	g.open()
+	<-done
+	for i := 0; i < 2+r.Intn(3); i++ {
+		sc.send(sc.more(r, 0, 1, size)[0])
+	}
 	return sc
 }
 
